@@ -191,7 +191,9 @@ def reuse_history(ctx, lw, rng):
                 ctx.violation(f"parent differs from its own construction history after the child was "
                               f"reused/edited: {kind}: {detail}", case={"history": hist},
                               mechanism="parent_changed:" + kind, monitor="parent stability (shadow)")
-    ctx.case(("reuse", xlog[0][0], len(parents), had_ancilla), had_ancilla or len(parents) >= 2,
+    ctx.case(("reuse", xlog[0][0], len(parents), had_ancilla, x.n_modes, len(x.heralds["input"]),
+              tuple(sorted(h[4]["ancilla_inside_span"] for h in hist if h[0] == "add_to_parent")),
+              tuple(sorted(h[3] for h in hist if h[0] == "add_to_parent"))), had_ancilla or len(parents) >= 2,
              sample={"history": hist})
     drain_into(ctx, {"history": hist})
 
@@ -239,7 +241,7 @@ def rejection_history(ctx, lw, rng):
         if after != before:
             ctx.violation(f"circuit changed across a call of kind '{kind}' that raised", case=case,
                           mechanism="rejected_call_changed_circuit", monitor="driver atomicity")
-        ctx.case(("reject", kind, bool(internal)), True)
+        ctx.case(("reject", kind, tuple(sorted(internal)), nn, len(p.heralds["input"])), True)
         drain_into(ctx, case)
 
 
@@ -288,6 +290,9 @@ def shared_instances_round(ctx, lw, rng, baseline):
         one.add(lw.qubit.T(), 0)
         lw.tomography.LIProcessTomography(1, one, exp_proc).process()
         lw.tomography.GateFidelity(1, one, exp_proc).process(np.array([[1, 0], [0, np.exp(1j * np.pi / 4)]]))
+        if rng.random() < 0.3:
+            argmon.wrap  # noqa: B018
+            lw.tomography.MLEProcessTomography(1, one, exp_proc).process()
         if conv is not None and conv.input_modes == 4 and sum(conv.heralds["input"].values()) <= 2 \
                 and conv.n_modes <= 10:
             lw.tomography.StateTomography(2, conv, exp_state).process()
